@@ -16,7 +16,7 @@ META = {
         "in-workspace call of the rates parser passes Some(expected period) derived from the file name; insertion is keyed by "
         "the entry's own key; RateKey derives Eq and Hash with no manual impl. R7 (rates parser): pushing an entry is dominated "
         "by the period check (year and month) and by the `rate <= 0 → Err` guard. R8 (wiring): every front-end passes Some(cache); "
-        "the CLI builds the cache from the folder exactly when --fx-folder is given. Does not compare with a pre-converted ledger. R8: the front-end's folder scan hands every .xml file to the loader (only iteration, error propagation and the extension test guard the construction of a RateFile). R6 also: what the loader parsed from a supplied file enters the cache under nothing but the iteration and error propagation (and the extension test of the bundled directory); any further condition on the insertion is reported. R9: where cgt-money looks a currency code up in the ISO table (rates parser, cache, loader) the code is case-folded first, so a supplied rate is never skipped for its spelling."),
+        "the CLI builds the cache from the folder exactly when --fx-folder is given. Does not compare with a pre-converted ledger. R8: the front-end's folder scan hands every .xml file to the loader (only iteration, error propagation and the extension test guard the construction of a RateFile). R6 also: what the loader parsed from a supplied file enters the cache under nothing but the iteration and error propagation (and the extension test of the bundled directory); any further condition on the insertion is reported. R9: where cgt-money looks a currency code up in the ISO table (rates parser, cache, loader) the code is case-folded first, so a supplied rate is never skipped for its spelling. R9 also: the DSL consumers build GBP for every amount written without a code, also for a FEES/TAX amount after a foreign-currency price (shared with C13-R6)."),
     "trusted_base": ["HashMap::insert replaces the value of an equal key; derived Eq/Hash compare all fields",
                      "chrono Datelike::year/month", "rustc MIR + resolution"],
 }
